@@ -16,8 +16,10 @@
      when its number is zero) -> number, quantized when a formatter is given; else None.
    - PositionConverter: `pos and ...` (a Position is a 2-tuple: always truthy).
    - InventoryConverter: Inventory.get_currency_units(cur).number (ZERO + every
-     lot of that currency, Decimal addition), `if number and dformat` quantize,
-     `number or None`.
+     lot of that currency, Decimal addition); zero -> None; otherwise the number,
+     quantized when a formatter is given (like the other two converters, a non-zero
+     number that quantizes to 0.00 stays 0.00; before the fix recorded in
+     known-findings.txt the Inventory converter alone turned it into None).
    A NULL cell in an amount-like column is modelled as "nothing there" for all
    three datatypes (Amount/Position: `if vamount and`, Inventory: see D9).
    Ill-typed tables (a cell that is neither NULL nor of the column's datatype, a row
@@ -177,8 +179,7 @@ Definition conv_cell (dt : dtype) (cur : currency) (c : cellv) : cellv :=
       if str_eqb (pcur p) cur then CPlain (VDec (quant (pnum p) cur)) else cnull
   | DInventory, CInventory i =>
       let n := inv_units cur i in
-      let n' := if negb (dec_is_zero n) then quant n cur else n in
-      if dec_is_zero n' then cnull else CPlain (VDec n')
+      if dec_is_zero n then cnull else CPlain (VDec (quant n cur))
   | _, _ => cnull
   end.
 
